@@ -284,7 +284,10 @@ func (h inducedSubgraph) Neighbours(v int) []int {
 //The properties of the induced subgraph are calculated from g when called and reflect the current state of g. If a vertex in V is no longer in the graph, the behaviour of this function is unspecified.
 func InducedSubgraph(g Graph, V []int) Graph {
 	values, indices := intsSort(V)
-	return inducedSubgraph{verts: V, sortedV: values, indices: indices, g: g}
+	//The caller is free to modify V afterwards so we keep a copy.
+	verts := make([]int, len(V))
+	copy(verts, V)
+	return inducedSubgraph{verts: verts, sortedV: values, indices: indices, g: g}
 }
 
 type sortWithIndex struct {
